@@ -11,6 +11,7 @@ package simnet
 import (
 	"errors"
 	"fmt"
+	"io"
 	"net"
 	"net/netip"
 	"os"
@@ -20,6 +21,8 @@ import (
 	"time"
 
 	"github.com/pion/transport/v4"
+
+	"verif/sim/simstream"
 )
 
 // Datagram is one UDP datagram in flight.
@@ -53,6 +56,9 @@ type World struct {
 	OnDeliver func(d *Datagram, to *Sock)
 	// ParkListens makes ListenUDP/ListenPacket park until the simulator releases them (canonical order).
 	ParkListens bool
+	// TCPServers are the addresses that accept simulated outgoing TCP connections; TCPConns the connections made.
+	TCPServers []netip.AddrPort
+	TCPConns   []*TCPConn
 
 	Stats Stats
 }
@@ -713,8 +719,58 @@ func (n *hostNet) Dial(string, string) (net.Conn, error) { return nil, transport
 func (n *hostNet) DialUDP(string, *net.UDPAddr, *net.UDPAddr) (transport.UDPConn, error) {
 	return nil, transport.ErrNotSupported
 }
-func (n *hostNet) DialTCP(string, *net.TCPAddr, *net.TCPAddr) (transport.TCPConn, error) {
-	return nil, transport.ErrNotSupported
+
+// TCPConn is a simulated outgoing TCP connection (TURN over TCP): the client side of a simstream pair.
+type TCPConn struct {
+	*simstream.Conn
+	Host *Host
+	Tag  string
+}
+
+func (c *TCPConn) CloseRead() error  { return nil }
+func (c *TCPConn) CloseWrite() error { return c.Conn.CloseWrite() }
+func (c *TCPConn) ReadFrom(r io.Reader) (int64, error) {
+	return io.Copy(struct{ io.Writer }{c.Conn}, r)
+}
+func (c *TCPConn) SetLinger(int) error                    { return nil }
+func (c *TCPConn) SetKeepAlive(bool) error                { return nil }
+func (c *TCPConn) SetKeepAlivePeriod(time.Duration) error { return nil }
+func (c *TCPConn) SetNoDelay(bool) error                  { return nil }
+func (c *TCPConn) SetWriteBuffer(int) error               { return nil }
+func (c *TCPConn) SetReadBuffer(int) error                { return nil }
+
+// DialTCP connects to a simulated TCP server: any address listed in World.TCPServers accepts; the server
+// side of the stream is kept by the world (nobody reads it: the TURN client is a stub).
+func (n *hostNet) DialTCP(network string, _ *net.TCPAddr, raddr *net.TCPAddr) (transport.TCPConn, error) {
+	h := n.h
+	w := h.w
+	if w.ParkListens {
+		if p := w.park("dialtcp", fmt.Sprintf("%s/%s/%s", h.Name, network, raddr)); p.Fail != nil {
+			return nil, &net.OpError{Op: "dial", Net: network, Err: p.Fail}
+		}
+	}
+	w.mu.Lock()
+	defer w.mu.Unlock()
+	ok := false
+	for _, a := range w.TCPServers {
+		if a == raddr.AddrPort() {
+			ok = true
+		}
+	}
+	if !ok {
+		return nil, &net.OpError{Op: "dial", Net: network, Err: syscall.ECONNREFUSED}
+	}
+	ip := h.primaryIP(false)
+	p := h.nextPort[ip]
+	if p == 0 {
+		p = 50000
+	}
+	h.nextPort[ip] = p + 1
+	cl, srv := simstream.Pair(&net.TCPAddr{IP: ip.AsSlice(), Port: p}, raddr)
+	_ = srv
+	c := &TCPConn{Conn: cl, Host: h, Tag: "DialTCP"}
+	w.TCPConns = append(w.TCPConns, c)
+	return c, nil
 }
 func (n *hostNet) ResolveIPAddr(_, address string) (*net.IPAddr, error) {
 	ip := net.ParseIP(address)
@@ -1049,4 +1105,18 @@ func (w *World) FindSockAnywhere(addr netip.AddrPort) *Sock {
 		}
 	}
 	return nil
+}
+
+// OpenTCPConns returns the simulated outgoing TCP connections that are still open.
+func (w *World) OpenTCPConns() []*TCPConn {
+	w.mu.Lock()
+	cs := append([]*TCPConn(nil), w.TCPConns...)
+	w.mu.Unlock()
+	var out []*TCPConn
+	for _, c := range cs {
+		if !c.Closed() {
+			out = append(out, c)
+		}
+	}
+	return out
 }
